@@ -23,6 +23,7 @@ type Env struct {
 	hget  func(st *State, comp string) string
 	gconst func(gl *ssa.Global, st *State) (Val, bool)
 	inDef bool // compiling a spec function body: no heap access
+	alias map[string][]string // recorded local name -> its new name(s) (alias.go)
 }
 
 type specErr struct{ msg string }
@@ -187,6 +188,22 @@ func (env *Env) tr(e *E) Val {
 				return Val{S: env.loadLoc(v.Loc), Sort: v.Sort, G: v.G}
 			}
 			return v
+		}
+		if env.alias != nil {
+			// a recorded local that was renamed (alias.go); my_<name> follows its base name
+			name, pre := e.S, ""
+			if strings.HasPrefix(name, "my_") {
+				name, pre = name[3:], "my_"
+			}
+			var inScope []string
+			for _, a := range env.alias[name] {
+				if _, ok := env.vars[pre+a]; ok {
+					inScope = append(inScope, a)
+				}
+			}
+			if len(inScope) == 1 {
+				return env.tr(&E{K: "id", S: pre + inScope[0]})
+			}
 		}
 		if v, ok := env.lookupPkgName(env.tpkg, e.S); ok {
 			return v
@@ -877,8 +894,18 @@ func (env *Env) trCall(e *E) Val {
 		if fv.Fn == nil {
 			sfail("capturedVar: not a closure literal here")
 		}
+		want := map[string]bool{e.A[1].S: true}
+		named := false
+		for _, v := range fv.Fn.FreeVars {
+			named = named || v.Name() == e.A[1].S
+		}
+		if !named {
+			for _, a := range env.alias[e.A[1].S] { // the captured variable was renamed (alias.go)
+				want[a] = true
+			}
+		}
 		for i, v := range fv.Fn.FreeVars {
-			if v.Name() == e.A[1].S && i < len(fv.Clo) {
+			if want[v.Name()] && i < len(fv.Clo) {
 				c := fv.Clo[i]
 				pt, ok := c.G.Underlying().(*types.Pointer)
 				if !ok {
